@@ -131,6 +131,10 @@ func ParseContractText(path, pkgPath, text string) (*ContractFile, error) {
 	var lines []rawLine
 	for i, l := range strings.Split(text, "\n") {
 		t := strings.TrimSpace(l)
+		if strings.HasPrefix(t, "// @") {
+			// gofmt rewrites "//@" to "// @" inside doc comments
+			t = "//@" + t[4:]
+		}
 		if strings.HasPrefix(t, "//@") {
 			s := strings.TrimSpace(t[3:])
 			// strip trailing "// comment" inside contract line
